@@ -9,7 +9,7 @@ from __future__ import annotations
 
 import random
 
-from vk import families, pool, poolfam
+from vk import families, pool, poolfam, rulefam
 from vk.common import Obligation
 
 PROPERTY = "C02"
@@ -53,6 +53,9 @@ def obligations(tier, seed):
     for sk in hv:
         if sk.meta.get("rule"):
             obs.append(_ob(sk, _plus(sk.meta["rule"]), "own"))
+    # hand-written per-rule programs (rules and shapes the harvested snippets cannot reach)
+    for sk in rulefam.skeletons():
+        obs.append(_ob(sk, _plus(sk.meta["rule"]), "fam"))
     # every rule on a sample of the pool (a rule fires where its pattern happens to occur)
     rules = [t for t in poolfam.scheduled_rules()
              if not any(x in t for x in ("numpy", "pandas", "tracing.", "imports", "line_length", "blank_lines"))]
